@@ -177,9 +177,15 @@ fn lib_utc_to_tai(u: i128) -> Result<i128, String> {
     guard(|| {
         let e = Epoch::from_duration(mk(u), TimeScale::UTC);
         let r = e.to_time_scale(TimeScale::TAI);
-        (r, e.to_tai_duration(), e.to_duration_in_time_scale(TimeScale::TAI))
+        // the dedicated UTC constructor is the same epoch
+        let e2 = Epoch::from_utc_duration(mk(u));
+        let same = e2.time_scale == TimeScale::UTC && e2.duration.to_parts() == e.duration.to_parts() && e2.to_tai_duration().to_parts() == r.duration.to_parts();
+        (r, e.to_tai_duration(), e.to_duration_in_time_scale(TimeScale::TAI), same)
     })
-    .and_then(|(r, d1, d2)| {
+    .and_then(|(r, d1, d2, same)| {
+        if !same {
+            return Err("Epoch::from_utc_duration(d) differs from Epoch::from_duration(d, UTC) (its parts, scale or TAI duration)".into());
+        }
         if r.time_scale != TimeScale::TAI {
             return Err("to_time_scale(TAI) did not return a TAI epoch".into());
         }
